@@ -58,7 +58,7 @@ def gen_case(rng, ctx):
         if kind in ("bulk", "upsert"):
             op["evs"] = [ev() for _ in range(rng.choice([1, 2, 3]))]
             op["ids"] = [dict(origin=rng.choice(["own", "foreign", "foreign", "never", "none", "none", "huge", "str"]),
-                              other=rng.randrange(nb), pick=rng.randrange(100)) for _ in op["evs"]]
+                              other=rng.randrange(nb), pick=rng.randrange(100), as_str=rng.random() < 0.25) for _ in op["evs"]]
         ops.append(op)
     if rng.random() < 0.2:
         # a burst around the NEWEST event of one bucket, with a write to another bucket in the middle: whatever a store
